@@ -2,11 +2,13 @@
 # Runs every seeded change against the quick check of the property it breaks (and optional extra ids).
 # usage: matrix.sh [tier] > results ; writes /verif/seeded/MATRIX.txt
 tier=${1:-quick}
-out=/verif/seeded/MATRIX.txt
+filter=${MATRIX_FILTER:-.}
+out=${MATRIX_OUT:-/verif/seeded/MATRIX.txt}
 : > $out.tmp
 for d in /verif/seeded/*/; do
   name=$(basename $d)
   [ -f $d/patch.diff ] || continue
+  echo "$name" | grep -Eq "$filter" || continue
   prop=$(python3 -c "import json;print(json.load(open('$d/meta.json'))['breaks_property'])")
   cd /repo && git apply $d/patch.diff 2>/dev/null || { echo "$name $prop PATCH-DOES-NOT-APPLY" >> $out.tmp; continue; }
   s=$(date +%s)
